@@ -253,6 +253,9 @@ fn setter_history(ctx: &mut Ctx, env: &Env, rng: &mut Rng) {
         let junk = Cond::random(rng, n, true);
         junk.apply(&mut b);
         b.condition.set_speed(*rng.pick(&[-1.0, 0.0, 1e300, 0.3]));
+        if b.condition.get_speed() < 0.2 {
+            b.condition.set_speed(0.5);
+        }
         b.condition.set_alpha(*rng.pick(&[-5.0, 7.0, 0.2]));
         b.condition.set_msd_threshold(rng.below(n), *rng.pick(&[-1.0, 2.0, 0.1]));
         let iw = b.condition.get_interporation_weight_mut();
@@ -260,6 +263,28 @@ fn setter_history(ctx: &mut Ctx, env: &Env, rng: &mut Rng) {
         let _ = iw.set_parameter(0, &[2.0]); // bad sum: rejected
         let _ = iw.set_gv(0, &[f64::NAN]);
         log.push(format!("junk {}", junk.to_json()));
+        // the engine is *used* between setter calls: anything a call remembers (a cached
+        // vocoder, a memoised trajectory) must not survive into later settings
+        if rng.chance(0.4) {
+            let u = env.corpus.random_utterance(rng, 1, 2);
+            match rng.below(3) {
+                0 => {
+                    let _ = b.synthesize(u);
+                    log.push("synthesize".into());
+                }
+                1 => {
+                    let _ = b.clone().synthesize(u);
+                    log.push("clone().synthesize".into());
+                }
+                _ => {
+                    if let Ok(mut g) = b.generator(u) {
+                        let mut buf = vec![0.0; g.fperiod()];
+                        let _ = g.generate_step(&mut buf);
+                    }
+                    log.push("generator + one step".into());
+                }
+            }
+        }
     }
     let mut order: Vec<usize> = (0..9 + 2 * n).collect();
     rng.shuffle(&mut order);
